@@ -51,20 +51,17 @@ func ruleT3(c *an.Ctx) {
 			n++
 			key := "map-wrap-guarded@" + an.FnName(fn)
 			zeroTest := func(from, to *ssa.BasicBlock) bool {
-				cnd, t, ok := an.EdgeCond(from, to)
-				if !ok {
-					return false
-				}
-				r := an.Normalize(cnd, t)
-				chk := func(x, y ssa.Value, op token.Token) bool {
-					b2, f := an.FieldLoad(an.Strip(x))
-					if f != mapDim || b2 != base || !an.IsIntConst(y, 0) {
-						return false
+				return an.EdgeHolds(from, to, func(r an.Rel) bool {
+					chk := func(x, y ssa.Value, op token.Token) bool {
+						b2, f := an.FieldLoad(an.Strip(x))
+						if f != mapDim || b2 != base || !an.IsIntConst(y, 0) {
+							return false
+						}
+						return op == token.EQL || op == token.LEQ
 					}
-					return op == token.EQL || op == token.LEQ
-				}
-				f := r.Flip()
-				return chk(r.X, r.Y, r.Op) || chk(f.X, f.Y, f.Op)
+					f := r.Flip()
+					return chk(r.X, r.Y, r.Op) || chk(f.X, f.Y, f.Op)
+				})
 			}
 			// definitions after which MapDim of base is not known to be zero
 			var defs []ssa.Instruction
